@@ -3,8 +3,11 @@
 # baseline's always_fail / flaky tests.  Hypothesis-driven tests are randomly seeded, so an unexpected failure
 # is re-run (that test only, up to 3 times) and counts only if it fails every time.  Usage: tools/suite.sh [tree]
 tree=${1:-/repo}
+# SIGINT may be inherited as "ignored" (nohup, background jobs); one repository test sends itself SIGINT and expects
+# KeyboardInterrupt, so the default handler is restored before pytest starts
+PYTEST='import signal, sys, pytest; signal.signal(signal.SIGINT, signal.default_int_handler); sys.exit(pytest.main(sys.argv[1:]))'
 out=$(mktemp)
-rm -rf "$tree/.hypothesis"; cd "$tree" && /venv/bin/python -m pytest -q -p no:cacheprovider --timeout=900 --continue-on-collection-errors src/ecdsa > "$out" 2>&1
+rm -rf "$tree/.hypothesis"; cd "$tree" && /venv/bin/python -c "$PYTEST" -q -p no:cacheprovider --timeout=900 --continue-on-collection-errors src/ecdsa > "$out" 2>&1
 grep -E '^(FAILED|ERROR)' "$out" | grep -v -E 'test_implicit_unused_bits|TestEncodeBitstring::test_new_call_convention|test_implicit_unexpected_unused|TestRemoveBitstring::test_new_call_convention|test_ecdsa.py::test_sig_verify|test_add_different_scale_points|test_add_one_scaled_point' | sed -E 's/^(FAILED|ERROR) ([^ ]+).*/\2/' > "$out.new"
 tail -1 "$out"
 bad=0
@@ -12,7 +15,7 @@ for t in $(cat "$out.new"); do
   fails=0
   for i in 1 2 3; do
     rm -rf "$tree/.hypothesis"
-    /venv/bin/python -m pytest -q -p no:cacheprovider --timeout=900 "$t" >/dev/null 2>&1 || fails=$((fails+1))
+    /venv/bin/python -c "$PYTEST" -q -p no:cacheprovider --timeout=900 "$t" >/dev/null 2>&1 || fails=$((fails+1))
   done
   if [ $fails -eq 3 ]; then echo "UNEXPECTED FAILURE: $t"; bad=1; else echo "flaky (failed $fails/3 reruns): $t"; fi
 done
